@@ -314,3 +314,13 @@ Arguments RCtx {value St err}.
 Arguments RSentinel {value St err}.
 Arguments RStuck {value St err}.
 Arguments RFuel {value St err}.
+Arguments POk {value St err}.
+Arguments PStop {value St err}.
+Arguments MOk {value St err}.
+Arguments MStop {value St err}.
+Arguments LNextLine {value St err}.
+Arguments LNextFile {value St err}.
+Arguments LStop {value St err}.
+Arguments KNil {value St err}.
+Arguments KExit {value St err}.
+Arguments KFail {value St err}.
